@@ -576,7 +576,7 @@ _CTX: Dict[str, Any] = {}
 def _work(job):
   idx, beh, si, seed, mirror = job
   try:
-    r = replay(beh, _CTX['spaces'][si], seed, mirror=mirror)
+    r = replay(beh, _CTX['spaces'][si], seed, mirror=mirror, tail=8 if mirror else 3)
   except Exception as e:   # pylint: disable=broad-except
     import traceback
     r = dict(cfg=beh[0][1].get('cfg'), pm=beh[0][1].get('pm'), steps=0, violations=[], counters={},
